@@ -95,7 +95,8 @@ class Contract:
         self.case_chunk = getattr(cls, 'case_chunk', 1)
         self.options = dict(getattr(cls, 'options', {}))
         self.witness = _plain(getattr(cls, 'witness', None))
-        self.hints = _plain(getattr(cls, 'hints', None))     # ghost code run after requires is assumed (lemma instances)
+        self.hints = _plain(getattr(cls, 'hints', None))
+        self.at_return = _plain(getattr(cls, 'at_return', None))   # ghost code over the function's locals, run at each return of the unit     # ghost code run after requires is assumed (lemma instances)
         self.func = getattr(cls, 'func', None)        # optional explicit function object getter
         self.verify = getattr(cls, 'verify', True)    # False: assumed contract (external / trusted)
         self.assumed_reason = getattr(cls, 'assumed_reason', None)
